@@ -26,15 +26,26 @@ const (
 	kCompile                // Runtime.CompileModule (+ optional CompiledModule.Close)
 	kHostComp               // HostModuleBuilder.Compile
 	kRtClose                // Runtime.Close / CloseWithExitCode
+	kCtxClose               // context-driven close: a spinning guest call is cut by cancel / deadline (WithCloseOnContextDone)
+	kCall                   // a guest call on a module handle: succeeds iff the module is open
 	nKinds
 )
 
-var kindName = [...]string{"InstantiateModule", "InstantiateWithConfig", "HostInstantiate", "Module", "Close", "CloseWithExitCode",
-	"IsClosed", "CompileModule", "HostCompile", "RuntimeClose"}
-var kindShort = [...]string{"I", "IW", "HI", "L", "C", "CX", "Q", "CM", "HC", "RC"}
+const nCoreKinds = kRtClose + 1 // kinds every mode runs
 
-func (k opKind) isInst() bool    { return k <= kHostInst }
-func (k opKind) isMutator() bool { return k.isInst() || k == kClose || k == kCloseX || k == kRtClose }
+// onHandle: the operation acts on a module handle the client got earlier.
+func (k opKind) onHandle() bool {
+	return k == kClose || k == kCloseX || k == kIsClosed || k == kCtxClose || k == kCall
+}
+
+var kindName = [...]string{"InstantiateModule", "InstantiateWithConfig", "HostInstantiate", "Module", "Close", "CloseWithExitCode",
+	"IsClosed", "CompileModule", "HostCompile", "RuntimeClose", "ContextClose", "Call"}
+var kindShort = [...]string{"I", "IW", "HI", "L", "C", "CX", "Q", "CM", "HC", "RC", "XC", "CALL"}
+
+func (k opKind) isInst() bool { return k <= kHostInst }
+func (k opKind) isMutator() bool {
+	return k.isInst() || k == kClose || k == kCloseX || k == kRtClose || k == kCtxClose
+}
 
 type resKind uint8
 
@@ -138,7 +149,7 @@ func (o lop) String() string {
 			return fmt.Sprintf("L(%s)=m%d", nameStr(o.Name), o.ID)
 		}
 		return fmt.Sprintf("L(%s)=%s", nameStr(o.Name), resName[o.Res])
-	case o.Kind == kClose || o.Kind == kCloseX || o.Kind == kIsClosed:
+	case o.Kind.onHandle():
 		return fmt.Sprintf("%s(m%d)=%s", kindShort[o.Kind], o.ID, resName[o.Res])
 	default:
 		return fmt.Sprintf("%s=%s", kindShort[o.Kind], resName[o.Res])
@@ -272,6 +283,17 @@ func step(rx relax, s mstate, in pin, out pout) []mstate {
 			return []mstate{t}
 		}
 		return nil
+	}
+	switch in.kind { // in the model these are what they amount to for the registry
+	case kCtxClose:
+		in.kind = kCloseX
+	case kCall:
+		in.kind = kIsClosed
+		if out.res == rOK {
+			out.res = rFalse
+		} else if out.res != rPanic {
+			out.res = rTrue
+		}
 	}
 	if out.res == rPanic {
 		// never returned; only operations that had no effect are admitted to a checked
@@ -431,7 +453,7 @@ func buildOps(rx relax, h []lop) []porcupine.Operation {
 			continue
 		}
 		ended := o.registers() && (o.Res == rOKClosed || o.Res == rStartFail)
-		if (rx.M && (o.Kind == kClose || o.Kind == kCloseX)) || (rx.R && o.Kind == kRtClose) || (rx.D && o.Kind.isInst() && o.Res == rDup) || ended {
+		if (rx.M && (o.Kind == kClose || o.Kind == kCloseX || o.Kind == kCtxClose)) || (rx.R && o.Kind == kRtClose) || (rx.D && o.Kind.isInst() && o.Res == rDup) || ended {
 			in.phase = 2
 			ops = append(ops, porcupine.Operation{ClientId: o.Client, Input: in, Output: out, Call: o.Call, Return: ret})
 		}
@@ -565,7 +587,7 @@ func minimise(rx relax, h []lop) []lop {
 // observer: the operation has no effect in the model.
 func observer(o lop) bool {
 	switch {
-	case o.Kind == kRtClose, o.Kind == kClose, o.Kind == kCloseX:
+	case o.Kind == kRtClose, o.Kind == kClose, o.Kind == kCloseX, o.Kind == kCtxClose:
 		return false
 	case o.Kind.isInst():
 		return !o.registers()
@@ -699,6 +721,11 @@ func expect(s mstate, k opKind, name, id int) resKind {
 			return rFalse
 		}
 		return rTrue
+	case k == kCall:
+		if s.open&bit(id) != 0 {
+			return rOK
+		}
+		return rClosedErr
 	case k == kCompile || k == kHostComp:
 		if s.closed {
 			return rClosedErr
